@@ -605,3 +605,97 @@ where
 pub fn workers() -> usize {
     std::env::var("VERIF_WORKERS").ok().and_then(|s| s.parse().ok()).unwrap_or(16)
 }
+
+
+// ------------------------------------------------------------------------------------------------
+// coverage-guided campaigns (thorough tier): run a pre-built cargo-fuzz target with the oracle
+// inside, fresh corpus seeded from files, fixed number of runs per job
+// ------------------------------------------------------------------------------------------------
+
+pub struct FuzzResult {
+    pub executed: u64,
+    pub corpus_files: u64,
+    pub crashes: Vec<String>,
+}
+
+pub fn fuzz_campaign(rep: &mut Report, target: &str, seeds: &[Vec<u8>], runs_per_job: u64, max_len: usize, jobs: usize) {
+    let bin = format!("{VERIF_DIR}/harness/fuzz/target/x86_64-unknown-linux-gnu/release/{target}");
+    if !std::path::Path::new(&bin).exists() {
+        fault(&format!("{bin} not built (the check script builds the fuzz targets for the thorough tier)"));
+    }
+    let work = format!("{VERIF_DIR}/harness/fuzz/work/{target}-{}", std::process::id());
+    let corpus = format!("{work}/corpus");
+    let art = format!("{work}/artifacts/");
+    let _ = std::fs::remove_dir_all(&work);
+    std::fs::create_dir_all(&corpus).unwrap_or_else(|e| fault(&format!("mkdir {corpus}: {e}")));
+    std::fs::create_dir_all(&art).unwrap();
+    for (i, s) in seeds.iter().enumerate() {
+        let _ = std::fs::write(format!("{corpus}/seed-{i:05}"), s);
+    }
+    let o = std::process::Command::new(&bin)
+        .current_dir(&work)
+        .args([
+            corpus.as_str(),
+            &format!("-artifact_prefix={art}"),
+            &format!("-runs={runs_per_job}"),
+            &format!("-seed={}", rep.seed.wrapping_add(1)),
+            &format!("-max_len={max_len}"),
+            "-len_control=0",
+            "-print_final_stats=1",
+            "-timeout=20",
+            "-rss_limit_mb=4096",
+            &format!("-jobs={jobs}"),
+            &format!("-workers={jobs}"),
+        ])
+        .env("ASAN_OPTIONS", "detect_leaks=0:abort_on_error=1")
+        .output()
+        .unwrap_or_else(|e| fault(&format!("cannot run {bin}: {e}")));
+    let _ = o;
+    // libFuzzer writes one log per job: fuzz-<n>.log
+    let mut executed = 0u64;
+    if let Ok(rd) = std::fs::read_dir(&work) {
+        for e in rd.filter_map(|e| e.ok()) {
+            let p = e.path();
+            if p.extension().map(|x| x == "log").unwrap_or(false) {
+                if let Ok(s) = std::fs::read_to_string(&p) {
+                    for l in s.lines() {
+                        if let Some(n) = l.strip_prefix("stat::number_of_executed_units:") {
+                            executed += n.trim().parse::<u64>().unwrap_or(0);
+                        }
+                    }
+                }
+            }
+        }
+    }
+    let corpus_files = std::fs::read_dir(&corpus).map(|rd| rd.count() as u64).unwrap_or(0);
+    let mut crashes = vec![];
+    if let Ok(rd) = std::fs::read_dir(&art) {
+        for e in rd.filter_map(|e| e.ok()) {
+            let name = e.file_name().to_string_lossy().to_string();
+            let keep = format!("{VERIF_DIR}/violations/{}-{target}-{name}", rep.property);
+            let _ = std::fs::create_dir_all(format!("{VERIF_DIR}/violations"));
+            let _ = std::fs::copy(e.path(), &keep);
+            if name.starts_with("crash-") || name.starts_with("oom-") {
+                crashes.push(keep);
+            } else if name.starts_with("timeout-") || name.starts_with("slow-unit-") {
+                // a time budget hit is inconclusive, never a violation
+                println!("INCONCLUSIVE: {target} reported {name} (saved as {keep})");
+            }
+        }
+    }
+    rep.stats.evaluations += executed;
+    rep.stats.class_n(&format!("fuzz.{target}.executed"), executed);
+    rep.stats.class_n(&format!("fuzz.{target}.corpus"), corpus_files);
+    rep.sub_runs.push(serde_json::json!({"sub": format!("libfuzzer {target}"), "evaluations": executed, "corpus_files_at_end": corpus_files, "jobs": jobs, "runs_per_job": runs_per_job}));
+    for c in &crashes {
+        println!("VIOLATION property={} replay={c}", rep.property);
+        println!("  sub-check: coverage-guided {target} (oracle inside the target); replay with ./check {} --replay {c}", rep.property);
+        rep.violations.push(c.clone());
+    }
+    if executed == 0 {
+        fault(&format!("{target}: no executions recorded (see {work})"));
+    }
+    if crashes.is_empty() {
+        let _ = std::fs::remove_dir_all(&work);
+    }
+}
